@@ -19,7 +19,7 @@ LEVEL = 'exploration'
 QUICK_RUNS = 12000
 QUICK_BUDGET_S = 60
 THOROUGH_BUDGET_S = 600
-RULE = ('export/unexport histories (2-15 steps) over 10 paths including /, /a, /a/b, /a/bc, '
+RULE = ('export/unexport histories (2-15 steps) over 11 paths including /, /a, /a/b, /a/bc, '
         '/a/b/c, with Introspect / GetManagedObjects / ordinary calls sent to exported, '
         'unexported, intermediate and unrelated paths at scheduler-chosen instants (in flight '
         'across steps), seeded delivery interleaving and read splitting')
@@ -37,7 +37,7 @@ COMPONENTS = {
 }
 ASSUMPTIONS = ['unexport is only issued for exported paths (anything else is a caller error)']
 
-PATHS = ['/', '/a', '/a/b', '/a/bc', '/a/b/c', '/x', '/a/b/c/d', '/ab', '/a_1/b2', '/a_1']
+PATHS = ['/', '/a', '/a/b', '/a/bc', '/a/b/c', '/x', '/a/b/c/d', '/ab', '/a_1/b2', '/a_1', '/a/b/c/d/e/f/g/h/i']
 QUERY_PATHS = PATHS + ['/a/b/x', '/zz', '/a/bcd', '/x/y/z', '/a_1/b', '/a_']
 E_UNKNOWN_OBJECT = 'org.freedesktop.DBus.Error.UnknownObject'
 STD_IFACES = {'org.freedesktop.DBus.Properties', 'org.freedesktop.DBus.Introspectable',
